@@ -103,7 +103,7 @@ def _same_loc(a, b):
 
 
 _HELPERS = {'same_loc': _same_loc, 'fresh_loc': lambda x: True, 'rows': _rows, 'cols': _cols, 'implies': _implies, 'iff': _iff, 'same': _same, 'eq1': _same,
-            'b2i': lambda x: int(bool(x)), 'cmul': lambda a, b: a * b, 'len': len, 'min': min, 'max': max, 'abs': abs,
+            'b2i': lambda x: int(bool(x)), 'cmul': lambda a, b: a * b, 'cplx_one': lambda: 1.0 + 0j, 'len': len, 'min': min, 'max': max, 'abs': abs,
             'all': all, 'any': any, 'range': range, 'int': int, 'bool': bool, 'xor1': _xor1}
 
 
